@@ -110,14 +110,27 @@ def compat (mon c : Content) : Bool :=
   | .unreach f _, .unreach f' _ => decide (f' = f)
   | m, c => decide (c = m)
 
-/-- salient input class of a monitored message (part of the failure signature) -/
+/-- salient class of a failure (part of the signature): from the monitored message and, when a decoded piece is at
+    hand, from HOW it differs.  `v4-nexthop-padded-to-16` only if the piece agrees in family and attributes and its
+    next hop is the monitored 4-byte next hop followed by 12 zero bytes (finding S29c); any other difference of the
+    same input keeps the general classes. -/
+def paddedNh (mon c : Content) : Bool :=
+  match mon, c with
+  | .reach f _ (some nh) a, .reach f' _ (some nh') a' =>
+      decide (f' = f) && decide (nh.length = 4) && decide (nh' = nh ++ List.replicate 12 0) && allMatch attrAgrees a' a
+  | _, _ => false
+
 def nhClass : Content → String
   | .reach fam _ (some nh) attrs =>
-      if fam / 65536 = 1 ∧ 16 ≤ nh.length then "v4-nlri-v6-nexthop"
-      else if fam / 65536 = 2 ∧ nh.length = 4 then "v6-nlri-v4-nexthop"
+      if fam = 65537 ∧ 16 ≤ nh.length then "v4-nlri-v6-nexthop"
       else if (attrs.map (fun a => a.data.length)).sum > 3500 then "large-attributes" else "plain"
   | .reach _ _ none _ => "no-nexthop"
   | _ => "plain"
+
+def failClass (mon : Content) (c : Option Content) : String :=
+  match c with
+  | some c => if paddedNh mon c then "v4-nexthop-padded-to-16" else nhClass mon
+  | none => nhClass mon
 
 /-- `s` must be exactly ONE complete BGP UPDATE PDU (RFC 7854 §4.6, RFC 6396 §4.4.2); what the decoder reads in it -/
 def readOnePdu (who : String) (tbl : Tbl) (ap : Bool) (s : Bytes) : Except String Content :=
@@ -144,7 +157,7 @@ def checkSeq (rd : Bytes → Except String (Content × Bytes)) (who : String) (a
     match rd s with
     | .error e => .error e
     | .ok (c, rest) =>
-      if !compat mon c then .error s!"{who}-content-differs class={nhClass mon}"
+      if !compat mon c then .error s!"{who}-content-differs class={failClass mon (some c)}"
       else if (acc ++ entsOf c).length < (entsOf mon).length then
         if (entsOf c).isEmpty then .error s!"{who}-content-differs class={nhClass mon}"
         else checkSeq rd who ap mon fuel (acc ++ entsOf c) rest
@@ -602,7 +615,7 @@ def hdrDom (h : PeerHdr) : Bool :=
 /-- a monitored UPDATE names at least one prefix (Adj-RIB-In / Loc-RIB changes do) and, for the unicast /
     multicast families explored here, an announcement has a next hop (`validate_update` guarantees it) -/
 def monDom : Content → Bool
-  | .reach _ e nh _ => !e.isEmpty && nh.isSome
+  | .reach fam e nh _ => !e.isEmpty && (nh.isSome || decide (fam % 256 = 133) || decide (fam % 256 = 134))
   | .unreach _ e => !e.isEmpty
   | _ => true
 
